@@ -237,6 +237,10 @@ fn in_process(ctx: &Ctx) -> Report {
     let mut durations: Vec<f64> = Vec::new();
     for fno in 0..files {
         let nl = if fno % 50 == 0 { 2000 } else { 20 + r.below(300) as usize };
+        let nl = match std::env::var("SQMON_MAXLINES").ok().and_then(|x| x.parse::<usize>().ok()) {
+            Some(m) => nl.min(m),
+            None => nl,
+        };
         let (lines, classes, canaries) = hostile_file(&mut r, nl);
         let opts = hostile_opts(&mut r, fno % 3 != 0);
         let bytes = join_bytes(&lines, fno % 7 != 0);
@@ -247,7 +251,8 @@ fn in_process(ctx: &Ctx) -> Report {
         } else {
             0.05
         };
-        let limit = Duration::from_secs_f64((200.0 * med).max(20.0));
+        let slow: f64 = std::env::var("SQMON_SLOW").ok().and_then(|x| x.parse().ok()).unwrap_or(1.0);
+        let limit = Duration::from_secs_f64((200.0 * med).max(20.0 * slow));
         let (res, t, wall) = run_watchdog(&opts, bytes.clone(), limit);
         durations.push(wall);
         for c in &classes {
@@ -414,6 +419,8 @@ fn cli_runs(ctx: &Ctx) -> Option<Report> {
         Some(rel) => vec![(debug.clone(), "debug"), (rel.clone(), "release")],
         None => vec![(debug.clone(), "debug")],
     };
+    let have_valgrind = std::process::Command::new("valgrind").arg("--version").output().map(|o| o.status.success()).unwrap_or(false);
+    rep.count("valgrind_available", have_valgrind as i64);
     let runs = ctx.share(ctx.n(160, 6_000));
     let recs = ["squitters.txt", "raw1.txt", "sbs2.txt", "df24.txt", "err.txt", "ruler.txt", "df0-df16.txt", "raw2.txt", "sbs1.txt", "df4-alt-error.txt"];
     for k in 0..runs {
@@ -439,8 +446,21 @@ fn cli_runs(ctx: &Ctx) -> Option<Report> {
             opts.update = 0; // keep the quadratic refresh output small
         }
         let args = cli_args(&opts, &src);
-        for (bin, profile) in &bins {
-            let out = run_cli(bin, &args, Duration::from_secs(120), &[]);
+        let mut variants: Vec<(String, &str, Vec<String>)> = bins.iter().map(|(b, p)| (b.clone(), *p, vec![])).collect();
+        if let (Some(rel), true) = (&ctx.cli_release, have_valgrind && (k % 8 == 0 || (!ctx.quick() && k % 3 == 0))) {
+            // memcheck on the shipped profile: invalid reads/writes, use of uninitialised values, bad frees
+            variants.push((rel.clone(), "release under valgrind memcheck", vec!["valgrind".into(), "--quiet".into(), "--error-exitcode=97".into(), "--exit-on-first-error=no".into()]));
+        }
+        for (bin, profile, prefix) in &variants {
+            let out = run_cli(bin, &args, Duration::from_secs(if prefix.is_empty() { 120 } else { 900 }), prefix);
+            if !prefix.is_empty() {
+                rep.count("valgrind_memcheck_runs", 1);
+                rep.count("valgrind_lines_fed", if use_rec { 0 } else { lines.len() as i64 });
+                if out.code == Some(97) || out.stderr.contains("== ERROR SUMMARY") || out.stderr.contains("Invalid read") || out.stderr.contains("Invalid write") || out.stderr.contains("uninitialised") {
+                    rep.violation("valgrind-memcheck-report", opts.describe(), format!("memcheck reported on {}: {}", source_desc, out.stderr.chars().take(1200).collect::<String>()), vec![format!("cli {}", cli_args(&opts, "{STREAM}").join(" ")), "note run under: valgrind --error-exitcode=97 <release binary>".into()]);
+                    continue;
+                }
+            }
             rep.eval(Some(format!("{}|{}|{}", profile, args.join(" "), k).as_bytes()));
             rep.class(&format!("{}:{}", profile, if use_rec { "recording" } else { "hostile" }));
             rep.count("cli_runs", 1);
@@ -491,6 +511,10 @@ fn cli_runs(ctx: &Ctx) -> Option<Report> {
 }
 
 pub fn run(ctx: &Ctx) -> Vec<Report> {
+    if std::env::var("SQMON_ONLY_INPROCESS").is_ok() {
+        // sanitizer / interpreter builds (Miri, ASan, TSan) repeat the hostile in-process workload only
+        return vec![in_process(ctx)];
+    }
     let mut out = vec![in_process(ctx), sweeps(ctx)];
     if let Some(r) = cli_runs(ctx) {
         out.push(r);
